@@ -175,11 +175,12 @@ def r2(ctx):
         extra = [x for x in b.dominators()[W.bb] if x != d and b.dominates(some_side[0], x) and b.blocks[x]['term']['k'] == 'switch'] if some_side else []
         ctx.check(not extra, rule, P + '|no-extra-guard', W.where(), 'no additional condition guards was_modified', 'was_modified is skipped under an additional condition (bb%s)' % extra)
     # its true edge returns Err
-    swl = [u for u in b.operand_uses(W.dest[0])]
+    # (the answer may be moved into a flag first: `let modified = match .. { Some(t) => was_modified(..), None => false }; if modified {..}`)
     br = None
-    for (bbx, idx, what) in swl:
-        if what[0] == 'switch':
-            br = what[1]
+    for l_ in sorted(forward_locals(b, W.dest[0])):
+        for (bbx, idx, what) in b.operand_uses(l_):
+            if what[0] == 'switch' and br is None:
+                br = what[1]
     if br is None:
         ctx.violation(rule, P + '|modified-returns-err', W.where(), 'the result of was_modified is not branched on')
     else:
@@ -384,7 +385,7 @@ def r4(ctx):
     if not res:
         return
     Pbb = res[0][0]
-    retains = b.calls(r'Vec::<T, A>::retain$|Vec<.*>::retain$|::retain$')
+    retains = b.calls(r'Vec::<T, A>::retain$|Vec<.*>::retain$|::retain$|Iterator::filter$')     # `v.retain(p)` or `v.into_iter().filter(p).collect()`
     len_r, file_r = [], []
     for c in retains:
         cl = c.f.get('gargs', [])
@@ -409,7 +410,8 @@ def r4(ctx):
             tt = truth_table(cb, {'is_file': isf[0].bb})
             ident = table_equals(tt, lambda a: a['is_file'])[0]
         ctx.check(ident, rule, P + '|regular-files-identity', c.where(), 'a file is kept iff metadata.is_file()', 'the filter keeps entries for which is_file() is false (or drops regular files)')
-        ctx.check(b.dominates(c.bb, Pbb) and rs.has_call(r'Metadata::is_file$') and count_nots(cb, rs) == 0, rule, P + '|regular-files-only', c.where(),
+        # (the returned bool is is_file() itself, or constants chosen by a branch on it - the table above has decided which)
+        ctx.check(b.dominates(c.bb, Pbb) and ((rs.has_call(r'Metadata::is_file$') and count_nots(cb, rs) == 0) or ident), rule, P + '|regular-files-only', c.where(),
                   'files.retain(is_file) dominates the result', 'the regular-file filter is conditional or does not return is_file')
     if ctx.floor(rule, 'length filter (retain + len == file_len)', len(len_r), 1, b.where()):
         c, cb = len_r[0]
@@ -434,6 +436,11 @@ def r4(ctx):
         cm = [x for x in comparisons(cb) if x.op in ('==', '!=')]
         rs = backslice(cb, [0])
         keep_eq = cm and cm[0].dest in rs.locals and ((cm[0].op == '==') == (count_nots(cb, rs) % 2 == 0))
+        if cm and not keep_eq:
+            # `if len == group_len { return true } ..; false`: the answer is a constant chosen by the comparison
+            from ..analysis import truth_table, table_equals
+            tt_ = truth_table(cb, {'eq': cm[0].bb})
+            keep_eq = table_equals(tt_, (lambda a: a['eq']) if cm[0].op == '==' else (lambda a: not a['eq']))[0]
         oth = backslice(cb, [cm[0].b]) if cm else None
         ctx.check(bool(keep_eq), rule, P + '|length-check-relation', cb.where(), 'keeps a file iff its current length equals the recorded one', 'the length filter does not keep exactly the files of equal length')
     # run_dedupe: no_check_size only |= transform.is_some()
